@@ -284,7 +284,13 @@ class Ctx:
         return self.tier == "thorough"
 
     def n(self, quick, thorough):
-        return thorough if self.thorough else quick
+        """case count for the tier; in the thorough tier generated-stream counts (>= 100) are multiplied by
+        VERIF_THOROUGH_SCALE (default 5), grid parameters (small numbers) are left alone"""
+        if not self.thorough:
+            return quick
+        if thorough >= 100:
+            return thorough * int(os.environ.get("VERIF_THOROUGH_SCALE", "5") or 5)
+        return thorough
 
     # ---- differential comparison model vs code
     def run_cases(self, cases, label=None):
